@@ -4,7 +4,13 @@ import DL.Lemmas.CFBasic
 # Fragment and position bookkeeping for the soundness invariant of the control-flow analyzer
 
 * `Stmt.inF` / `Kids.okF` / `Kids.okFn` — the fragment: statements whose expressions may contain function scopes
-  (parameters, then at most one body block whose statements are again in the fragment), to any depth.
+  (parameters, then at most one body block whose statements are again in the fragment) and nested statements / blocks
+  (`with` bodies, class static blocks), to any depth, with these restrictions on *where* nested statements may sit:
+  anywhere in the expressions of a `simple` statement; in a `return`/`throw` argument, an `if`/`while`/`for` test, a
+  `for` init and the right side of a `for-in/of` only if they cannot `break`/`continue` out of the expression
+  (`Compl.plain`), and not at all in a test known to be true; not in a `do-while` test, a `for` update, the left side of
+  a `for-in/of` (the analyzer is unsound there: `DL.Props.C10`), a `switch` discriminant, a case test, catch or function
+  parameters (`Kids.pure`).
 * `positions` — every key of the metadata map a visit may write (`end_` or `unreachable`).
 * `upos` — the keys whose `unreachable` flag a visit writes: the start positions of statements, at any depth.
 * `Kids.fpos` — the positions of the function scopes of an expression tree that are not nested in another function.
@@ -108,45 +114,54 @@ def Cases.upos : Cases → List Nat
   | .cons _ _ t b r => t.upos ++ (b.upos ++ r.upos)
 end
 
-/-! ### the fragment -/
+/-! ### the fragment
+
+Every form of statement and of expression kid is in it.  Statements nested directly in expressions (`with` bodies:
+`Kid.stmt`; class static blocks: `Kid.block`) are admitted
+* without restriction among the kids of a `simple` statement (expression / declaration / `with` statements);
+* with "plain" completions (normal or throw: no `break`/`continue` escapes — the rule for class static blocks) in the
+  argument of `return`/`throw`, the test of `if`, the test of `while` and `for` (unless it is known to be true), the
+  initialiser of `for`, the iterated expression of `for-in/of`;
+* not in: the test of `do-while`, the update of `for`, the binding of `for-in/of` (there the analyzer model is unsound,
+  see `DL.Props.C10`), nor in a `switch` discriminant, case tests, catch and function parameters (kept pure). -/
 mutual
 def Kid.okF : Kid → Bool
   | .expr _ ks => ks.okF
   | .fnScope _ ks => ks.okFn
-  | .block _ _ => false
-  | .stmt _ => false
+  | .block _ b => b.inF
+  | .stmt s => s.inF
 def Kids.okF : Kids → Bool
   | .nil => true
   | .cons k r => k.okF && r.okF
-/-- the kids of a function scope or of a catch clause: parameters (expressions), then at most one body block -/
+/-- the kids of a function scope or of a catch clause: parameters (pure expressions), then at most one body block -/
 def Kids.okFn : Kids → Bool
   | .nil => true
   | .cons (.block _ body) r => body.inF && r.isNil
-  | .cons (.expr _ ks) r => ks.okF && r.okFn
+  | .cons (.expr _ ks) r => ks.okF && ks.pure && r.okFn
   | .cons (.fnScope _ ks) r => ks.okFn && r.okFn
   | .cons (.stmt _) _ => false
 def Stmt.inF : Stmt → Bool
   | .simple _ _ kids => kids.okF
   | .block _ b => b.inF
-  | .ifS _ t c none => t.okF && c.inF
-  | .ifS _ t c (some a) => t.okF && c.inF && a.inF
-  | .whileS _ t _ b => t.okF && b.inF
-  | .doWhileS _ b t _ => t.okF && b.inF
-  | .forS _ i u t _ _ b => i.okF && u.okF && t.okF && b.inF
-  | .forInOf _ l r b => l.okF && r.okF && b.inF
-  | .switchS _ d cs => d.okF && cs.inF
+  | .ifS _ t c none => t.okF && t.compl.plain && c.inF
+  | .ifS _ t c (some a) => t.okF && t.compl.plain && c.inF && a.inF
+  | .whileS _ t tt b => t.okF && t.compl.plain && (!tt || t.pure) && b.inF
+  | .doWhileS _ b t _ => t.okF && t.pure && b.inF
+  | .forS _ i u t _ tt b => i.okF && i.compl.plain && (u.okF && u.pure) && (t.okF && t.compl.plain && (!tt || t.pure)) && b.inF
+  | .forInOf _ l r b => (l.okF && l.pure) && (r.okF && r.compl.plain) && b.inF
+  | .switchS _ d cs => d.okF && d.pure && cs.inF
   | .tryS _ _ b hh _ ck hf _ f => b.inF && ck.okFn && f.inF && (hh || ck.isNil) && (hf || f.isNil)
   | .labeled _ _ b => b.inF
   | .brk _ _ => true
   | .cont _ _ => true
-  | .ret _ a => a.okF
-  | .throw _ a => a.okF
+  | .ret _ a => a.okF && a.compl.plain
+  | .throw _ a => a.okF && a.compl.plain
 def Stmts.inF : Stmts → Bool
   | .nil => true
   | .cons s r => s.inF && r.inF
 def Cases.inF : Cases → Bool
   | .nil => true
-  | .cons _ _ t b r => t.okF && b.inF && r.inF
+  | .cons _ _ t b r => t.okF && t.pure && b.inF && r.inF
 end
 
 end DL.CF
